@@ -477,7 +477,21 @@ def templates():
 
     @reg("lt")
     def _(p, a):
-        c = p.rng.integers(4)
+        c = p.rng.integers(5)
+        if c == 4 and hasattr(a, "qtype") and type(a).__name__ == "QBytesTensor":
+            # both operands went through the same rescaling (a common scalar, possibly negative) or the same negation:
+            # identical scales again, but not the ones the tensors were quantized with
+            b = p.sibling(a, same_scale=True)
+            k = float(p.rng.choice([-1.0, -0.5, -4.0, 2.0]))
+            how = p.rng.integers(3)
+            if how == 0:
+                a2, b2 = a * k, (b * k if hasattr(b, "qtype") else b)
+            elif how == 1:
+                a2, b2 = a / k, (b / k if hasattr(b, "qtype") else b)
+            else:
+                a2, b2 = -a, (-b if hasattr(b, "qtype") else b)
+            op = p.rng.integers(3)
+            return (lambda: a2 < b2) if op == 0 else ((lambda: torch.lt(a2, b2)) if op == 1 else (lambda: a2 > b2))
         if c == 0:
             b = p.sibling(a, same_scale=True)
             return lambda: a < b
